@@ -755,7 +755,7 @@ class RecordingOracle:
 
     def __init__(self, real):
         self.real = real
-        self.fs, self.gs, self.boundary, self.calls, self.fargs = [], [], [], [], []
+        self.fs, self.gs, self.boundary, self.calls, self.fargs, self.gargs = [], [], [], [], [], []
 
     def __call__(self, model, subs, vals, wgts, function_handle=None, gradient_handle=None, **kw):
         r = self.real(model, subs, vals, wgts, function_handle, gradient_handle, **kw)
@@ -768,7 +768,31 @@ class RecordingOracle:
         else:
             self.gs.append([np.array(a, dtype=float) for a in r])
             self.calls.append(("g", crng_list(kw.get("crng"))))
+            self.gargs.append((np.array(subs).copy(), np.asarray(vals, dtype=float).reshape(-1).copy(),
+                               np.asarray(wgts, dtype=float).reshape(-1).copy()))
         return r
+
+
+def sample_vs_data(arr, sample, nonzero_values_only=False):
+    """A recorded (subs, vals, wgts) sample against the CURRENT data array: subscripts inside, one value
+    and one weight per subscript, every value the data entry at its subscript (for a semi-stratified
+    gradient sample only the entries reported as nonzeros).  Returns '' or what is wrong."""
+    subs, vals, wgts = sample
+    if subs.size == 0:
+        return "" if len(vals) == 0 and len(wgts) == 0 else "values / weights without subscripts"
+    if subs.ndim != 2 or subs.shape[1] != arr.ndim:
+        return f"subscript array of shape {subs.shape} for a {arr.ndim}-way tensor"
+    if not (subs.shape[0] == len(vals) == len(wgts)):
+        return f"{subs.shape[0]} subscripts, {len(vals)} values, {len(wgts)} weights"
+    if (subs < 0).any() or (subs >= np.array(arr.shape)).any():
+        return "a sampled subscript is outside the tensor"
+    truth = arr[tuple(subs.T)]
+    bad = (vals != truth) & ((vals != 0) if nonzero_values_only else True)
+    if bad.any():
+        i = int(np.argmax(bad))
+        return (f"sampled value {vals[i]} at subscript {subs[i].tolist()} is not the entry {truth[i]} of the data "
+                f"being solved ({int(bad.sum())} of {len(vals)} samples)")
+    return ""
 
 
 def opt_state(kind, opt):
@@ -1079,6 +1103,8 @@ def real_problem(c):
         arr = r.uniform(0.2, 2.0, size=shape)
     else:
         arr = r.normal(size=shape)
+    if c.get("dscale") is not None:
+        arr = arr * float(Fraction(c["dscale"]))
     if c["sparse"]:
         arr = arr * (r.uniform(size=shape) < 0.5)
         # a completely full / completely empty sptensor cannot be sampled (error path, degenerate)
@@ -1093,7 +1119,11 @@ def real_problem(c):
     else:
         fh, gh, lb = setup(OBJECTIVES[c["objective"]], data)
     lo = max(lb, 0.0) if np.isfinite(lb) else -0.5
-    init = ttb.ktensor([lo + 0.1 + r.uniform(size=(s, c["rank"])) for s in shape])
+    if c.get("init") is not None:   # explicit range of the starting factors (overshooting starts)
+        a, b = (float(Fraction(v)) for v in c["init"])
+        init = ttb.ktensor([a + (b - a) * r.uniform(size=(s, c["rank"])) for s in shape])
+    else:
+        init = ttb.ktensor([lo + 0.1 + r.uniform(size=(s, c["rank"])) for s in shape])
     return data, fh, gh, lb, init
 
 
@@ -1168,20 +1198,25 @@ class SolverReal(Family):
         for p in case["problems"]:
             if opt is None or not shared:
                 opt = CLS[kind](**hyper_kwargs(kind, h))
+            default = bool(p.get("default_sampler"))
             with quiet():
                 data, fh, gh, lb, init = real_problem(p)
-                sampler = S.GCPSampler(data, KINDS.get(p.get("fkind")), _count(p["fsamp"]), KINDS.get(p["gkind"]),
-                                       _count(p["gsamp"]), max_iters=h["max_iters"])
+                # default_sampler: `sampler=None`, the solver builds GCPSampler(data) itself
+                sampler = None if default else S.GCPSampler(
+                    data, KINDS.get(p.get("fkind")), _count(p["fsamp"]), KINDS.get(p["gkind"]), _count(p["gsamp"]),
+                    max_iters=h["max_iters"])
+            arr = np.asarray(data.full().data if isinstance(data, ttb.sptensor) else data.data, dtype=float)
             # the fixed function sample, recorded at the sampler (instance attribute on OUR sampler object)
             fsample = []
-            orig_fs = sampler.function_sample
+            if not default:
+                orig_fs = sampler.function_sample
 
-            def rec_fs(d, orig_fs=orig_fs, fsample=fsample):
-                r = orig_fs(d)
-                fsample.append((np.array(r[0]).copy(), np.asarray(r[1], dtype=float).reshape(-1).copy(),
-                                np.asarray(r[2], dtype=float).reshape(-1).copy(), tuple(np.shape(r[1]))))
-                return r
-            sampler.function_sample = rec_fs
+                def rec_fs(d, orig_fs=orig_fs, fsample=fsample):
+                    r = orig_fs(d)
+                    fsample.append((np.array(r[0]).copy(), np.asarray(r[1], dtype=float).reshape(-1).copy(),
+                                    np.asarray(r[2], dtype=float).reshape(-1).copy(), tuple(np.shape(r[1]))))
+                    return r
+                sampler.function_sample = rec_fs
             oracle = RecordingOracle(O.estimate)
             steps = []
             orig = opt.update_step
@@ -1195,7 +1230,8 @@ class SolverReal(Family):
                               "out": [tolist(x) for x in out], "step": float(step), "after": opt_state(kind, opt)})
                 return out, step
 
-            def f(opt=opt, data=data, init=init, oracle=oracle, p=p, lb=lb, fh=fh, gh=gh, sampler=sampler):
+            def f(opt=opt, data=data, init=init, oracle=oracle, p=p, lb=lb, fh=fh, gh=gh, sampler=sampler,
+                  fsample=fsample, default=default, arr=arr):
                 np.random.seed(p["seed"])
                 cfg_before = snapshot(opt)
                 opt.update_step = rec_step
@@ -1210,6 +1246,24 @@ class SolverReal(Family):
                 finally:
                     del opt.update_step
                 fm = [x.copy() for x in m.factor_matrices]
+                if default and oracle.fargs:
+                    # the sampler lives inside solve(): the function sample is what the estimates were given
+                    a0 = oracle.fargs[0]
+                    fsample = [(a0[0], a0[1], a0[2], (len(a0[1]),))]
+                crng = np.array([], dtype=int) if default else sampler.crng
+                # every sample the solve used, against the data of THIS solve
+                bad_sample = ""
+                for a in oracle.fargs[:1]:
+                    bad_sample = sample_vs_data(arr, a)
+                    if bad_sample:
+                        bad_sample = "function sample: " + bad_sample
+                semi = (not default) and p.get("gkind") == "semistrat"
+                for gi, a in enumerate(oracle.gargs):
+                    if bad_sample:
+                        break
+                    bad_sample = sample_vs_data(arr, a, nonzero_values_only=semi)
+                    if bad_sample:
+                        bad_sample = f"gradient sample #{gi}: " + bad_sample
                 return {"factors": [tolist(x) for x in fm], "f_est_trace": tolist(info["f_est_trace"]),
                         "step_trace": tolist(info["step_trace"]), "n_epoch": int(info["n_epoch"]),
                         "nfails": int(opt._nfails), "n_boundaries": len(oracle.boundary),
@@ -1217,8 +1271,9 @@ class SolverReal(Family):
                         "equal_indices": indices_equal(oracle.boundary, fm), "fs_seen": list(oracle.fs),
                         "state": opt_state(kind, opt),
                         "cfg_changed": config_change(cfg_before, snapshot(opt), PER_SOLVE_STATE[kind]),
-                        "crng_misuse": crng_misuse(oracle.calls, sampler.crng), "ncrng": len(crng_list(sampler.crng)),
-                        "n_fsamples_drawn": len(fsample),
+                        "crng_misuse": crng_misuse(oracle.calls, crng), "ncrng": len(crng_list(crng)),
+                        "bad_sample": bad_sample,
+                        "n_fsamples_drawn": 1 if default else len(fsample),
                         "fsample_vals_shape": list(fsample[0][3]) if fsample else None,
                         # the objective on the recorded function sample, computed here (no estimate(), no crng)
                         "f_indep": [sample_objective(fh, b, fsample[0][:3]) for b in oracle.boundary] if fsample else [],
@@ -1292,6 +1347,8 @@ class SolverReal(Family):
                 what = f"the function sample was drawn {o['n_fsamples_drawn']} times (it is fixed for the whole solve)"
             if not what and not o["same_sample_every_call"]:
                 what = "a function-value estimate was not computed on the fixed function sample"
+            if not what and o["bad_sample"]:
+                what = o["bad_sample"]
             if not what and x["steps"]:
                 # the documented per-solve state starts every solve from the state of a new object
                 b0 = x["steps"][0]["before"]
@@ -1386,6 +1443,55 @@ class SolverReal(Family):
 # ----------------------------------------------------------------------------
 # L-BFGS-B
 # ----------------------------------------------------------------------------
+def np_full(weights, factors):
+    """The array a Kruskal tensor denotes, in plain NumPy."""
+    w = np.asarray(weights, dtype=float)
+    mats = [np.asarray(A, dtype=float) for A in factors]
+    out = np.zeros(tuple(A.shape[0] for A in mats))
+    for r in range(len(w)):
+        comp = np.array(w[r])
+        for A in mats:
+            comp = np.multiply.outer(comp, A[:, r])
+        out = out + comp
+    return out
+
+
+def np_objective(fh, data_arr, weights, factors):
+    """Σ f(x, m) over all entries, recomputed here (not the code's evaluate())."""
+    return float(np.sum(fh(data_arr, np_full(weights, factors))))
+
+
+def np_decode(shapes, rank, x):
+    """Factor matrices from a vector: consecutive blocks, each column by column."""
+    x = np.asarray(x, dtype=float)
+    out, loc = [], 0
+    for n in shapes:
+        out.append(x[loc: loc + n * rank].reshape((n, rank), order="F").copy())
+        loc += n * rank
+    return out
+
+
+def stub_overshoot(func, x0, fprime=None, approx_grad=False, bounds=None, **kw):
+    """Contract-respecting stand-in whose LAST EVALUATED point is not the point it returns: a
+    back-tracked projected gradient step is accepted, then a far trial point is evaluated and
+    rejected (what an abandoned line search does)."""
+    lo = np.array([b[0] for b in bounds], dtype=float)
+    x0 = np.maximum(lo, np.asarray(x0, dtype=float))
+    f0, g = func(x0)
+    g = np.array(g, dtype=float)
+    best, fbest, t = x0, f0, 1.0
+    for _ in range(40):
+        x = np.maximum(lo, x0 - t * g)
+        f, _ = func(x)
+        if np.isfinite(f) and f <= f0:
+            best, fbest = x, f
+            break
+        t /= 2
+    far = np.maximum(lo, best - 64.0 * g - 1.0)
+    ffar, _ = func(far)                      # rejected; like scipy, hand back ITS value with the kept point
+    return best.copy(), ffar, {"warnflag": 2, "task": "stub: abandoned trial", "nit": 1, "funcalls": 3, "grad": g}
+
+
 def stub_start(func, x0, fprime=None, approx_grad=False, bounds=None, **kw):
     """Contract-respecting stand-in: returns the (projected) start."""
     lo = np.array([b[0] for b in bounds], dtype=float)
@@ -1411,7 +1517,7 @@ def stub_backtrack(func, x0, fprime=None, approx_grad=False, bounds=None, **kw):
     return x0, f0, {"warnflag": 0, "task": "stub", "nit": 0, "funcalls": 1, "grad": g}
 
 
-SERVICES = {"real": None, "start": stub_start, "backtrack": stub_backtrack}
+SERVICES = {"real": None, "start": stub_start, "backtrack": stub_backtrack, "overshoot": stub_overshoot}
 
 
 def _user_cb(xk):  # a user callback handed to the LBFGSB constructor
@@ -1457,7 +1563,7 @@ class Lbfgsb(Family):
     same solve on a freshly constructed object, and the object's attributes before and after."""
     name = "lbfgsb"
     theorems = ("C13_lbfgsb_not_worse", "C13_lbfgsb_not_worse_model", "C13_lbfgsb_roundtrip",
-                "C13_reusable_lbfgsb")
+                "C13_lbfgsb_returns_service_point", "C13_lbfgsb_final_f", "C13_reusable_lbfgsb")
 
     def gen(self, rng, tier):
         n = 36 if tier == "quick" else 260
@@ -1496,8 +1602,35 @@ class Lbfgsb(Family):
                                   ("maxfun", [50, 15000]), ("callback", [1])):
                     if rng.random() < 0.35:
                         opts[key] = rng.choice(vals)
-            out.append({"service": rng.choice(["real", "real", "real", "start", "backtrack"]), "opts": opts,
+            out.append({"service": rng.choice(["real", "real", "real", "start", "backtrack", "overshoot"]), "opts": opts,
                         "via": rng.choice(["gcp_opt", "solve"]), "order": order, "problems": probs})
+        # sweep with the real optimiser: line-search budget x cut-offs x starts (an overshooting start makes a
+        # small maxls abandon a line search: the last evaluated point is then not the returned solution)
+        k = 0
+        for maxls in (1, 2, 20):
+            for cut in ({}, {"maxfun": rng.choice([2, 3, 4])}, {"maxfun": rng.choice([6, 9])},
+                        {"maxiter": rng.choice([1, 2])}, {"maxiter": rng.choice([4, 7])}):
+                for start in ("overshoot", "overshoot2", "regular"):
+                    if tier == "quick" and start == "overshoot2" and cut:
+                        continue
+                    if start == "regular":
+                        p = {"shape": rng.sample([2, 3, 4, 5], 3), "rank": rng.randint(1, 3), "sparse": False,
+                             "objective": rng.choice(["gaussian", "poisson", "rayleigh", "custom"]),
+                             "lb": rng.choice(["0", "1/4", "-1/2"]), "dseed": rng.randrange(10 ** 6)}
+                    else:
+                        p = {"shape": [4, 3, 5] if start == "overshoot" else rng.sample([3, 4, 5, 6], 3), "rank": 2,
+                             "sparse": False, "objective": "gaussian" if start == "overshoot" else "custom",
+                             "lb": "0", "dseed": rng.randrange(10 ** 6), "dscale": rng.choice(["20", "20", "50"]),
+                             "init": ["1/2", "7/2"]}
+                    probs = [p] + ([dict(p, dseed=rng.randrange(10 ** 6))] if k % 3 == 0 else [])
+                    out.append({"service": "real", "opts": {"maxls": maxls, **cut}, "via": ["solve", "gcp_opt"][k % 2],
+                                "order": "sweep-" + start, "problems": probs})
+                    k += 1
+        for start_seed in range(3 if tier == "quick" else 12):
+            p = {"shape": [4, 3, 5], "rank": 2, "sparse": False, "objective": "gaussian", "lb": "0",
+                 "dseed": rng.randrange(10 ** 6), "dscale": "20", "init": ["1/2", "7/2"]}
+            out.append({"service": "overshoot", "opts": {}, "via": ["solve", "gcp_opt"][start_seed % 2],
+                        "order": "sweep-stub", "problems": [p, dict(p, shape=[3, 2], dseed=rng.randrange(10 ** 6))]})
         return out
 
     @staticmethod
@@ -1515,15 +1648,21 @@ class Lbfgsb(Family):
             svc = SERVICES[case["service"]] or real
 
             def wrapped(func, x0, fprime=None, approx_grad=False, bounds=None, rec=rec, svc=svc, **kw):
+                # observe only: the objective closure updates the solver's model IN PLACE, so the
+                # harness must never call it itself (that would move the model)
                 rec["x0"] = np.array(x0, dtype=float).copy()
                 rec["bounds"] = list(bounds)
                 rec["kw"] = {k: (v if isinstance(v, (int, float)) else type(v).__qualname__) for k, v in kw.items()}
-                rec["f_start"] = float(func(np.array(x0, dtype=float).copy())[0])
-                x, f, d = svc(func, x0, fprime=fprime, approx_grad=approx_grad, bounds=bounds, **kw)
+                rec["evals"] = []
+
+                def observed(v, rec=rec):
+                    rec["evals"].append(np.array(v, dtype=float).copy())
+                    return func(v)
+                x, f, d = svc(observed, x0, fprime=fprime, approx_grad=approx_grad, bounds=bounds, **kw)
                 rec["x"] = np.array(x, dtype=float).copy()
                 rec["f"] = float(f)
                 rec["d"] = {k: int(d[k]) for k in ("nit", "funcalls", "warnflag") if k in d}
-                rec["f_at_x"] = float(func(np.array(x, dtype=float).copy())[0])
+                rec["task"] = str(d.get("task", ""))
                 return x, f, d
 
             def f(opt=opt, p=p, rec=rec, wrapped=wrapped):
@@ -1538,14 +1677,26 @@ class Lbfgsb(Family):
                             start = m0
                         else:
                             res, info = opt.solve(init.copy(), data, fh, gh, lb)
-                    f_start = float(fg_evaluate(start, data, None, fh, None))
-                    f_res = float(fg_evaluate(res, data, None, fh, None))
+                    # everything below is recomputed in plain NumPy from weights / factors
+                    arr = np.asarray(data.data, dtype=float)
+                    shapes = [int(x) for x in data.shape]
+                    w0 = tolist(start.weights)
+                    f_start = np_objective(fh, arr, w0, start.factor_matrices)
+                    f_res = np_objective(fh, arr, res.weights, res.factor_matrices)
+                    dec = np_decode(shapes, p["rank"], rec["x"])
+                    f_x0 = np_objective(fh, arr, w0, np_decode(shapes, p["rank"], rec["x0"]))
+                    f_x = np_objective(fh, arr, w0, dec)
+                    last = rec["evals"][-1] if rec["evals"] else rec["x"]
                 return {"f_start": f_start, "f_res": f_res, "lb": None if not np.isfinite(lb) else float(lb),
-                        "start": {"weights": tolist(start.weights), "factors": [tolist(x) for x in start.factor_matrices]},
+                        "start": {"weights": w0, "factors": [tolist(x) for x in start.factor_matrices]},
                         "res": {"weights": tolist(res.weights), "factors": [tolist(x) for x in res.factor_matrices]},
-                        "x0": tolist(rec["x0"]), "x": tolist(rec["x"]), "svc_f_start": rec["f_start"], "svc_f": rec["f"],
-                        "svc_f_at_x": rec["f_at_x"], "bounds": [[float(a), float(b)] for a, b in rec["bounds"]],
-                        "final_f": float(info["final_f"]), "counts": rec["d"], "svc_kw": rec["kw"],
+                        "x0": tolist(rec["x0"]), "x": tolist(rec["x"]), "svc_f_start": f_x0, "svc_f": rec["f"],
+                        "svc_f_at_x": f_x, "bounds": [[float(a), float(b)] for a, b in rec["bounds"]],
+                        "final_f": float(info["final_f"]), "counts": rec["d"], "svc_kw": rec["kw"], "task": rec["task"],
+                        "res_is_decoded_x": all(np.array_equal(a, b) for a, b in zip(res.factor_matrices, dec))
+                        and len(dec) == len(res.factor_matrices),
+                        "last_eval_differs": not np.array_equal(last, rec["x"]),
+                        "last_evals": [tolist(v) for v in rec["evals"][-3:]],
                         "cfg_changed": config_change(cfg_before, snapshot(opt)),
                         "kw_before": kw_before, "kw_after": kwargs_j(opt)}
             results.append(call(f))
@@ -1563,6 +1714,9 @@ class Lbfgsb(Family):
                     index.append((ci, k, "tovec"))
                     reqs.append({"op": "c13_update", "model": jval(o["start"]), "data": jval(o["x"])})
                     index.append((ci, k, "update"))
+                    reqs.append({"op": "c13_lbfgsb_inplace", "model": jval(o["start"]), "evals": jval(o["last_evals"]),
+                                 "x": jval(o["x"])})
+                    index.append((ci, k, "inplace"))
                     kb = o["kw_before"]
                     if all(kb.get(key) is None or isinstance(kb.get(key), (int, str)) for key in OPT_KEYS) and \
                             not (isinstance(kb.get("callback"), str)) and set(kb) == set(OPT_KEYS):
@@ -1610,17 +1764,21 @@ class Lbfgsb(Family):
             if "ok" not in r:
                 return Verdict("violation", f"solve #{k + 1} raised: {r.get('exc')}: {r.get('msg')}", r, None, None, tags)
             o = r["ok"]
+            if o["last_eval_differs"]:
+                tags.append("last-eval-differs")
+            if "ABNORMAL" in o["task"]:
+                tags.append("abnormal-linesearch")
             # the service call honoured its contract (checked, not assumed)
             lo = [b[0] for b in o["bounds"]]
             feasible_start = all(x >= l for x, l in zip(o["x0"], lo))
-            if feasible_start and not (o["svc_f_at_x"] <= o["svc_f_start"]):
+            if feasible_start and not (o["svc_f_at_x"] <= o["svc_f_start"] or close(o["svc_f_at_x"], o["svc_f_start"], 1e-12)):
                 return Verdict("violation", "optimiser service returned a worse point than the feasible start "
                                "(contract of the service)", r, None, None, tags + ["service-contract"])
             if any(x < l for x, l in zip(o["x"], lo)):
                 return Verdict("violation", "optimiser service left the bounds (contract of the service)", r, None, None,
                                tags + ["service-contract"])
             # the property
-            if feasible_start and not (o["f_res"] <= o["f_start"]):
+            if feasible_start and not (o["f_res"] <= o["f_start"] or close(o["f_res"], o["f_start"], 1e-12)):
                 return Verdict("violation", f"L-BFGS-B result has objective {o['f_res']} > start {o['f_start']}",
                                r, None, None, tags)
             if o["lb"] is not None and any(v < o["lb"] for A in o["res"]["factors"] for row in A for v in row):
@@ -1635,8 +1793,22 @@ class Lbfgsb(Family):
             if not deep_eq(jval(o["res"]), rep[(k, "update")]):
                 return Verdict("violation", "returned model is not update(initial model, optimiser answer) of the model",
                                r, rep[(k, "update")], None, tags)
-            if o["final_f"] != o["svc_f"]:
-                return Verdict("violation", "info['final_f'] is not the optimiser's value", r, None, None, tags)
+            # ... also with the in-place evaluations replayed (last evaluated point may differ from x)
+            if not deep_eq(jval(o["res"]), rep[(k, "inplace")]):
+                return Verdict("violation", "returned model differs from the wrapper model run on the recorded "
+                               "evaluations and the optimiser's answer", r, rep[(k, "inplace")], None, tags)
+            # on the implementation alone: returned model == decode(x the optimiser returned), bitwise
+            if not o["res_is_decoded_x"]:
+                return Verdict("violation", "returned model is not the optimiser's solution vector decoded "
+                               f"(last evaluated point {'differs from' if o['last_eval_differs'] else 'equals'} it; "
+                               f"task {o['task']})", r, None, None, tags)
+            # reported final objective = objective of the returned model (recomputed here), not worse than the start
+            if not close(o["final_f"], o["f_res"], 1e-12):
+                return Verdict("violation", f"info['final_f'] = {o['final_f']} is not the objective of the returned model "
+                               f"({o['f_res']}; the optimiser reported {o['svc_f']}, task {o['task']})", r, None, None, tags)
+            if feasible_start and not (o["final_f"] <= o["f_start"] or close(o["final_f"], o["f_start"], 1e-12)):
+                return Verdict("violation", f"info['final_f'] = {o['final_f']} is above the start's objective {o['f_start']}",
+                               r, None, None, tags)
             # reusable: the object's configuration is what it was, in every attribute ...
             if o["cfg_changed"]:
                 return Verdict("violation", f"solve #{k + 1} changed the configuration of the LBFGSB object it was issued "
